@@ -97,9 +97,18 @@ type solveJob struct {
 }
 
 func (x *FnExec) queryFor(o *Obl, model bool) string {
+	return x.queryForDepth(o, model, -1)
+}
+
+// queryForDepth: depth >= 0 keeps only the assumptions within `depth` symbol-sharing steps of the goal and
+// path condition (a subset of the assumptions: an unsat answer is still a proof).
+func (x *FnExec) queryForDepth(o *Obl, model bool, depth int) string {
 	x.tcMu.Lock()
 	defer x.tcMu.Unlock()
 	var as []*Term
+	if depth >= 0 {
+		defer func() {}()
+	}
 	// partial evaluation of everything under the literals of the path condition
 	env := x.tc.newSimpEnv(o.Guard)
 	for _, f := range x.facts[:o.NFacts] {
@@ -112,9 +121,64 @@ func (x *FnExec) queryFor(o *Obl, model bool) string {
 			as = append(as, s)
 		}
 	}
-	as = append(as, o.Guard)
+	var goalT *Term
 	if !o.Cover {
-		as = append(as, x.tc.Not(env.simp(o.Goal)))
+		goalT = x.tc.Not(env.simp(o.Goal))
+	}
+	if depth >= 0 && goalT != nil {
+		memo := x.symMemo
+		if memo == nil {
+			memo = map[*Term]map[string]bool{}
+			x.symMemo = memo
+		}
+		rel := map[string]bool{}
+		for k := range x.tc.symsOf(goalT, memo) {
+			rel[k] = true
+		}
+		for k := range x.tc.symsOf(o.Guard, memo) {
+			rel[k] = true
+		}
+		keep := make([]bool, len(as))
+		for round := 0; round <= depth; round++ {
+			var add []map[string]bool
+			for i, a := range as {
+				if keep[i] {
+					continue
+				}
+				sy := x.tc.symsOf(a, memo)
+				hit := false
+				for k := range sy {
+					if rel[k] && !strings.HasPrefix(k, "uf:strlen") && !strings.HasPrefix(k, "uf:typeof") {
+						hit = true
+						break
+					}
+				}
+				if hit {
+					keep[i] = true
+					add = append(add, sy)
+				}
+			}
+			for _, sy := range add {
+				for k := range sy {
+					// heap roots connect everything: do not propagate through them
+					if strings.HasPrefix(k, "H") && strings.Contains(k, "/") {
+						continue
+					}
+					rel[k] = true
+				}
+			}
+		}
+		var filtered []*Term
+		for i, a := range as {
+			if keep[i] {
+				filtered = append(filtered, a)
+			}
+		}
+		as = filtered
+	}
+	as = append(as, o.Guard)
+	if goalT != nil {
+		as = append(as, goalT)
 	}
 	return x.tc.Query("ALL", as, model, nil)
 }
@@ -133,6 +197,21 @@ func solveAll(jobs []solveJob, timeout time.Duration, par int, all bool) {
 			if !o.Cover && (o.Goal.isTrue() || o.Guard.isFalse()) {
 				o.Result, o.Solver = "unsat", "syntactic"
 				return
+			}
+			if !o.Cover {
+				// first attempt: only the assumptions near the goal (a subset, so unsat is still a proof)
+				qf := j.x.queryForDepth(o, false, 2)
+				ff := filepath.Join(j.dir, sanitize(o.Name)+".near.smt2")
+				os.WriteFile(ff, []byte(qf), 0o644)
+				tshort := timeout / 3
+				if tshort < 2*time.Second {
+					tshort = 2 * time.Second
+				}
+				rs := solveQuery(ff, tshort, false)
+				if rs[0].result == "unsat" {
+					o.Result, o.Solver, o.Ms = "unsat", rs[0].solver+"(near)", rs[0].ms
+					return
+				}
 			}
 			q := j.x.queryFor(o, true)
 			o.Query = q
@@ -162,17 +241,29 @@ func solveAll(jobs []solveJob, timeout time.Duration, par int, all bool) {
 				}
 				o.Solver = strings.Join(verdicts, ",")
 			}
-			if o.Result != "unsat" && o.Result != "sat" && !o.Cover && o.Guard.op == "or" && len(o.Guard.args) <= 12 {
-				// case split over the disjuncts of the path condition (join of several paths)
+			var cases []*Term
+			if o.Result != "unsat" && o.Result != "sat" && !o.Cover {
+				j.x.tcMu.Lock()
+				cases = j.x.tc.SplitCases(o.Guard, 64)
+				j.x.tcMu.Unlock()
+			}
+			if len(cases) > 1 {
+				// case split over the paths merged into this obligation's path condition
 				allUnsat := true
 				var total int64
-				for ci, d := range o.Guard.args {
+				for ci, d := range cases {
 					sub := *o
 					sub.Guard = d
-					q2 := j.x.queryFor(&sub, false)
-					f2 := filepath.Join(j.dir, sanitize(o.Name)+fmt.Sprintf(".case%d.smt2", ci))
+					q2 := j.x.queryForDepth(&sub, false, 2)
+					f2 := filepath.Join(j.dir, sanitize(o.Name)+fmt.Sprintf(".case%d.near.smt2", ci))
 					os.WriteFile(f2, []byte(q2), 0o644)
-					r2 := solveQuery(f2, to, false)
+					r2 := solveQuery(f2, to/2, false)
+					if r2[0].result != "unsat" {
+						q2 = j.x.queryFor(&sub, false)
+						f2 = filepath.Join(j.dir, sanitize(o.Name)+fmt.Sprintf(".case%d.smt2", ci))
+						os.WriteFile(f2, []byte(q2), 0o644)
+						r2 = solveQuery(f2, to, false)
+					}
 					total += r2[0].ms
 					if r2[0].result != "unsat" {
 						allUnsat = false
@@ -180,7 +271,7 @@ func solveAll(jobs []solveJob, timeout time.Duration, par int, all bool) {
 					}
 				}
 				if allUnsat {
-					o.Result, o.Solver, o.Ms = "unsat", fmt.Sprintf("case-split(%d)", len(o.Guard.args)), o.Ms+total
+					o.Result, o.Solver, o.Ms = "unsat", fmt.Sprintf("case-split(%d)", len(cases)), o.Ms+total
 				}
 			}
 			if o.Result != "unsat" && o.Result != "sat" {
